@@ -229,7 +229,7 @@ theorem sim_pass2 {n m : Nat} (hB : BlockSim ω mid n m) {s : VM ν} {σ : SStat
     | some v => do
       let ks ← newStr k
       pass ks v
-    | none => goPanic
+    | none => pure false
   | _ => goPanic
 
 /-- the spec's loop over the target value -/
